@@ -1019,8 +1019,10 @@ func (x *Exec) ghostInit(cfg *Config, styp types.Type, ref Term) {
 func (x *Exec) resolveFrame(cfg *Config) {
 	x.frameLocs = map[string][]Term{}
 	x.frameWhole = map[string]bool{}
+	x.frameSorts = map[string]Sort{}
 	env := x.entryEnv(cfg)
 	for _, t := range x.resolveModifies(env, x.c) {
+		x.frameSorts[t.arr] = t.sort
 		if t.loc == nil {
 			x.frameWhole[t.arr] = true
 		} else {
